@@ -1,29 +1,31 @@
 import DustVerif.Model.Tree
+import DustVerif.Model.TreeOld
 /-! Property C28: writer instance-management calls honour their documented contract.  Model: `wop` in
-    `Model/Tree.lean` (data_writer_entity.rs:171-312 register/unregister/dispose, :70-169 write,
-    writer_methods.rs:249-295 lookup_instance).  The instance handle of a sample is the 16-byte key hash of its key
-    (for the i32 key of the test types: the big-endian key, zero padded — checked byte-wise by the harness, which
-    then prints `h(<key>)`); in the model the handle of a keyed sample IS its key (`keyOf` injective), and every
-    sample of a keyless type has the one handle `0`.
+    `Model/Tree.lean` = data_writer_entity.rs (register_w_timestamp / unregister_w_timestamp / dispose_w_timestamp /
+    write_w_timestamp) and writer_methods.rs (lookup_instance) WITH fixes/D33.patch (unregister_instance clears the
+    `registered` flag of the instance's entry; every look-up, the dispose/unregister precondition and the
+    max_instances count see only flagged entries) and fixes/D33b.patch (lookup_instance refuses keyless types).
+    The instance handle of a sample is the 16-byte key hash of its key (for the i32 key of the test types: the
+    big-endian key, zero padded — checked byte-wise by the harness, which then prints `h(<key>)`); in the model the
+    handle of a keyed sample IS its key (`keyOf` injective), and every sample of a keyless type has the one handle `0`.
 
     Every clause is a statement about ONE call on an ARBITRARY writer state, hence about every call of every
-    history.  As the code is, two clauses fail (D33): `lookup_instance` has no keyless check, and
-    `unregister_instance` never removes the instance, so it stays known (lookup still answers, a second
-    unregister / a dispose succeed, its slot of `max_instances` stays taken). -/
+    history; `C28_contract` and `C28_lookup_tracks_history` are statements over all histories.  The behaviour before
+    the patches (`wopOld` in `Model/TreeOld.lean`, finding D33 / D33b) is kept as regression witnesses. -/
 namespace DustVerif.Tree
 
 /-- every operation on a writer that is not enabled → NotEnabled, nothing changes -/
 theorem C28_not_enabled (w : Writer) (o : WOp) (h : w.enabled = false) : wop w o = (w, .err .notEnabled) := by
   cases o <;> simp [wop, h]
 
-/-- register / unregister / dispose on a keyless type → IllegalOperation, nothing changes -/
+/-- register / unregister / dispose / lookup on a keyless type → IllegalOperation, nothing changes -/
 theorem C28_keyless_illegal (w : Writer) (k : Int) (he : w.enabled = true) (hk : w.keyed = false) :
     wop w (.register k) = (w, .err .illegalOperation) ∧ wop w (.unregister k) = (w, .err .illegalOperation) ∧
-    wop w (.dispose k) = (w, .err .illegalOperation) := by
+    wop w (.dispose k) = (w, .err .illegalOperation) ∧ wop w (.lookup k) = (w, .err .illegalOperation) := by
   simp [wop, he, hk]
 
 /-- register returns the handle of the sample's key (or OutOfResources when `max_instances` distinct instances
-    are already known), and afterwards the instance is registered -/
+    are registered), and afterwards the instance is registered -/
 theorem C28_register_returns_key_handle (w : Writer) (k : Int) (he : w.enabled = true) (hk : w.keyed = true) :
     ((wop w (.register k)).2 = .inst (some k) ∧ k ∈ (wop w (.register k)).1.registered) ∨
     ((wop w (.register k)).2 = .err .outOfResources ∧ (wop w (.register k)).1 = w ∧ k ∉ w.registered ∧
@@ -47,21 +49,66 @@ theorem C28_register_idempotent (w : Writer) (k : Int) (h : (wop w (.register k)
     · simp [wop, he, hk] at h
   · simp [wop, he] at h
 
-/-- lookup_instance on a keyed, enabled writer: the key's handle exactly when the instance is in the writer's
-    instance list, `None` otherwise; nothing changes -/
-theorem C28_lookup_iff_known (w : Writer) (k : Int) (he : w.enabled = true) (hk : w.keyed = true) :
+/-- lookup_instance on a keyed, enabled writer: the key's handle exactly when the instance is registered,
+    `None` otherwise; nothing changes -/
+theorem C28_lookup_iff_registered (w : Writer) (k : Int) (he : w.enabled = true) (hk : w.keyed = true) :
     (wop w (.lookup k)).1 = w ∧
     ((wop w (.lookup k)).2 = .inst (some k) ↔ k ∈ w.registered) ∧
     ((wop w (.lookup k)).2 = .inst none ↔ k ∉ w.registered) := by
-  by_cases hm : k ∈ w.registered <;> simp [wop, keyOfSample, he, hk, hm]
+  by_cases hm : k ∈ w.registered <;> simp [wop, he, hk, hm]
 
-/-- dispose / unregister of an instance the writer does not know → BadParameter, nothing changes -/
+/-- dispose / unregister of an instance that is not registered → BadParameter, nothing changes -/
 theorem C28_unknown_instance_bad_parameter (w : Writer) (k : Int) (he : w.enabled = true) (hk : w.keyed = true)
     (hu : k ∉ w.registered) :
     wop w (.dispose k) = (w, .err .badParameter) ∧ wop w (.unregister k) = (w, .err .badParameter) := by
   simp [wop, he, hk, hu]
 
-/-- a write that is refused (`max_instances`) leaves the writer as it was; one that succeeds makes the instance known -/
+theorem not_mem_filter_notKey (l : List Int) (k : Int) : k ∉ l.filter (notKey k) := by
+  intro h
+  have := (List.mem_filter.mp h).2
+  simp [notKey] at this
+
+theorem length_filter_notKey_lt (l : List Int) (k : Int) (h : k ∈ l) : (l.filter (notKey k)).length < l.length := by
+  induction l with
+  | nil => simp at h
+  | cons a l ih =>
+    by_cases ha : a = k
+    · subst ha
+      have : ((a :: l).filter (notKey a)) = l.filter (notKey a) := by
+        rw [List.filter_cons]; simp [notKey]
+      rw [this]
+      exact Nat.lt_succ_of_le (List.length_filter_le _ _)
+    · have hk : k ∈ l := by
+        rcases List.mem_cons.mp h with h | h
+        · exact absurd h.symm ha
+        · exact h
+      have : ((a :: l).filter (notKey k)) = a :: l.filter (notKey k) := by
+        rw [List.filter_cons]; simp [notKey, ha]
+      rw [this]
+      simp only [List.length_cons]
+      exact Nat.succ_lt_succ (ih hk)
+
+/-- unregister_instance of a registered instance succeeds and FORGETS it: afterwards the instance is not registered,
+    lookup answers `None`, a second unregister and a dispose answer BadParameter, every other instance stays, and
+    the number of registered instances (what `max_instances` limits) went down -/
+theorem C28_unregister_forgets (w : Writer) (k : Int) (he : w.enabled = true) (hk : w.keyed = true)
+    (hm : k ∈ w.registered) :
+    let w' := (wop w (.unregister k)).1
+    (wop w (.unregister k)).2 = .ok ∧ k ∉ w'.registered ∧ (wop w' (.lookup k)).2 = .inst none ∧
+    wop w' (.unregister k) = (w', .err .badParameter) ∧ wop w' (.dispose k) = (w', .err .badParameter) ∧
+    (∀ j, j ≠ k → (j ∈ w'.registered ↔ j ∈ w.registered)) ∧ w'.registered.length < w.registered.length := by
+  have h1 : wop w (.unregister k) = ({ w with registered := w.registered.filter (notKey k) }, .ok) := by
+    simp [wop, he, hk, hm]
+  have hn := not_mem_filter_notKey w.registered k
+  simp only [h1]
+  refine ⟨trivial, hn, ?_, ?_, ?_, ?_, length_filter_notKey_lt _ _ hm⟩
+  · simp [wop, he, hk, hn]
+  · simp [wop, he, hk, hn]
+  · simp [wop, he, hk, hn]
+  · intro j hj
+    simp [List.mem_filter, notKey, hj]
+
+/-- a write that is refused (`max_instances`) leaves the writer as it was; one that succeeds makes the instance registered -/
 theorem C28_write_registers (w : Writer) (k : Int) (he : w.enabled = true) :
     ((wop w (.write k)).2 = .ok ∧ keyOfSample w k ∈ (wop w (.write k)).1.registered) ∨
     ((wop w (.write k)).2 = .err .outOfResources ∧ (wop w (.write k)).1 = w) := by
@@ -71,75 +118,138 @@ theorem C28_write_registers (w : Writer) (k : Int) (he : w.enabled = true) :
     · left; simp [wop, he, hm, hr]
     · right; simp [wop, he, hm, hr]
 
-/-! ### the contract as a specification, and where the code deviates (D33) -/
+/-! ### the contract as a specification -/
 
-/-- the documented contract: like the code, except that `unregister_instance` forgets the instance and
-    `lookup_instance` on a keyless type is an IllegalOperation -/
+/-- the documented contract, written from the DDS text: order of refusals NotEnabled, IllegalOperation (keyless),
+    then per operation; the set of registered instances is a list of keys -/
 def specWop (w : Writer) (o : WOp) : Writer × Res :=
-  match o with
-  | .unregister k =>
-    if !w.enabled then (w, .err .notEnabled)
-    else if !w.keyed then (w, .err .illegalOperation)
-    else if w.registered.contains k then ({ w with registered := w.registered.erase k }, .ok)
-    else (w, .err .badParameter)
-  | .lookup k =>
-    if !w.enabled then (w, .err .notEnabled)
-    else if !w.keyed then (w, .err .illegalOperation)
-    else wop w (.lookup k)
-  | o => wop w o
-
-def isUnregister : WOp → Bool
-  | .unregister _ => true
-  | _ => false
+  if !w.enabled then (w, .err .notEnabled)
+  else match o with
+    | .write k =>
+      let key := if w.keyed then k else 0
+      if key ∈ w.registered then (w, .ok)
+      else if hasRoom w then ({ w with registered := w.registered ++ [key] }, .ok)
+      else (w, .err .outOfResources)
+    | .register k =>
+      if !w.keyed then (w, .err .illegalOperation)
+      else if k ∈ w.registered then (w, .inst (some k))
+      else if hasRoom w then ({ w with registered := w.registered ++ [k] }, .inst (some k))
+      else (w, .err .outOfResources)
+    | .unregister k =>
+      if !w.keyed then (w, .err .illegalOperation)
+      else if k ∈ w.registered then ({ w with registered := w.registered.filter (notKey k) }, .ok)
+      else (w, .err .badParameter)
+    | .dispose k =>
+      if !w.keyed then (w, .err .illegalOperation)
+      else if k ∈ w.registered then (w, .ok)
+      else (w, .err .badParameter)
+    | .lookup k =>
+      if !w.keyed then (w, .err .illegalOperation)
+      else if k ∈ w.registered then (w, .inst (some k))
+      else (w, .inst none)
 
 def runW (f : Writer → WOp → Writer × Res) (w : Writer) : List WOp → List Res
   | [] => []
   | o :: os => (f w o).2 :: runW f (f w o).1 os
 
-/-- C28 (partial): on a keyed writer, every history WITHOUT `unregister_instance` gets exactly the answers of the
-    documented contract (return codes and handles of every call).  Excluded: keyless `lookup_instance` and anything
-    after an `unregister_instance` (finding D33). -/
-theorem C28_contract_partial (w : Writer) (ops : List WOp) (hk : w.keyed = true)
-    (hu : ∀ o ∈ ops, isUnregister o = false) : runW wop w ops = runW specWop w ops := by
+/-- final writer state of a history -/
+def endW (f : Writer → WOp → Writer × Res) (w : Writer) : List WOp → Writer
+  | [] => w
+  | o :: os => endW f (f w o).1 os
+
+/-- C28 (one call): from ANY writer state every call answers and changes exactly what the documented contract says -/
+theorem C28_contract_step (w : Writer) (o : WOp) : wop w o = specWop w o := by
+  unfold wop specWop keyOfSample
+  cases o <;> cases he : w.enabled <;> cases hk : w.keyed <;> simp
+
+/-- C28 (histories): EVERY history of instance calls on ANY writer (keyed or keyless, enabled or not, any
+    max_instances) gets exactly the answers of the documented contract — no exclusion left -/
+theorem C28_contract (w : Writer) (ops : List WOp) : runW wop w ops = runW specWop w ops := by
   induction ops generalizing w with
   | nil => rfl
+  | cons o os ih => simp only [runW, C28_contract_step, ih]
+
+/-- is the instance `k` registered after the calls seen so far?  (register / write register it, unregister forgets it) -/
+def track (k : Int) (b : Bool) : WOp → Bool
+  | .register j => if j = k then true else b
+  | .write j => if j = k then true else b
+  | .unregister j => if j = k then false else b
+  | .dispose _ => b
+  | .lookup _ => b
+
+theorem wop_keeps (w : Writer) (o : WOp) :
+    (wop w o).1.enabled = w.enabled ∧ (wop w o).1.keyed = w.keyed ∧ (wop w o).1.maxInst = w.maxInst := by
+  unfold wop
+  cases o <;> simp only <;> (repeat' split) <;> exact ⟨rfl, rfl, rfl⟩
+
+/-- C28 (lookup over histories): on an enabled keyed writer without an instance limit, after ANY history an instance
+    is registered — i.e. `lookup_instance` returns its handle — exactly when the last register / write / unregister
+    of that key in the history was a register or a write -/
+theorem C28_lookup_tracks_history (k : Int) (ops : List WOp) (w : Writer) (he : w.enabled = true) (hk : w.keyed = true)
+    (hm : w.maxInst = none) :
+    (k ∈ (endW wop w ops).registered ↔ ops.foldl (track k) (w.registered.contains k) = true) := by
+  induction ops generalizing w with
+  | nil => simp [endW]
   | cons o os ih =>
-    have ho : specWop w o = wop w o := by
+    have hkeep := wop_keeps w o
+    have := ih (wop w o).1 (by rw [hkeep.1]; exact he) (by rw [hkeep.2.1]; exact hk) (by rw [hkeep.2.2]; exact hm)
+    simp only [endW, List.foldl_cons]
+    rw [this]
+    have hstep : (wop w o).1.registered.contains k = track k (w.registered.contains k) o := by
+      have hroom : hasRoom w = true := by simp [hasRoom, hm]
       cases o with
-      | unregister k => have := hu (.unregister k) List.mem_cons_self; simp [isUnregister] at this
-      | lookup k => unfold specWop; simp only [hk]; unfold wop; split <;> simp_all
-      | register k => rfl
-      | dispose k => rfl
-      | write k => rfl
-    have hk' : (wop w o).1.keyed = true := by
-      cases o <;> simp only [wop] <;> (repeat' split) <;> simp_all
-    simp only [runW, ho]
-    rw [ih (wop w o).1 hk' (fun o' ho' => hu o' (List.mem_cons_of_mem _ ho'))]
+      | register j =>
+        by_cases hj : j = k
+        · subst hj
+          by_cases hmem : j ∈ w.registered <;> simp [wop, track, he, hk, hmem, hroom]
+        · by_cases hmem : j ∈ w.registered <;> simp [wop, track, he, hk, hmem, hroom, hj]
+          intro h; exact absurd h.symm hj
+      | write j =>
+        by_cases hj : j = k
+        · subst hj
+          by_cases hmem : j ∈ w.registered <;> simp [wop, track, keyOfSample, he, hk, hmem, hroom]
+        · by_cases hmem : j ∈ w.registered <;> simp [wop, track, keyOfSample, he, hk, hmem, hroom, hj]
+          intro h; exact absurd h.symm hj
+      | unregister j =>
+        by_cases hj : j = k
+        · subst hj
+          by_cases hmem : j ∈ w.registered <;> simp [wop, track, he, hk, hmem, notKey]
+        · by_cases hmem : j ∈ w.registered <;> simp [wop, track, he, hk, hmem, hj, notKey]
+          intro _ h; exact absurd h.symm hj
+      | dispose j => by_cases hmem : j ∈ w.registered <;> simp [wop, track, he, hk, hmem]
+      | lookup j => by_cases hmem : j ∈ w.registered <;> simp [wop, track, he, hk, hmem]
+    rw [hstep]
+
+/-! ### regression witnesses: the code before fixes/D33.patch and fixes/D33b.patch (`wopOld`) -/
 
 def w0 (keyed : Bool) : Writer :=
   { part := 0, pub := 0, uid := 0, keyed := keyed, topic := "T", enabled := true, maxInst := some 1, registered := [] }
 
-/-- as-is (D33): after register + unregister the instance is still known: lookup answers its handle, a second
-    unregister and a dispose succeed (contract: `None`, BadParameter, BadParameter), and with `max_instances = 1`
-    another instance cannot be registered (contract: there is room again) -/
+/-- before fixes/D33.patch: after register + unregister the instance was still known — lookup answered its handle, a
+    second unregister and a dispose succeeded, and with `max_instances = 1` another instance could not be registered.
+    After: `None`, BadParameter, BadParameter, and the slot is free -/
 theorem C28_unregister_counterexample :
-    runW wop (w0 true) [.register 1, .unregister 1, .lookup 1, .unregister 1, .dispose 1, .register 2] =
+    runW wopOld (w0 true) [.register 1, .unregister 1, .lookup 1, .unregister 1, .dispose 1, .register 2] =
       [.inst (some 1), .ok, .inst (some 1), .ok, .ok, .err .outOfResources] ∧
-    runW specWop (w0 true) [.register 1, .unregister 1, .lookup 1, .unregister 1, .dispose 1, .register 2] =
+    runW wop (w0 true) [.register 1, .unregister 1, .lookup 1, .unregister 1, .dispose 1, .register 2] =
       [.inst (some 1), .ok, .inst none, .err .badParameter, .err .badParameter, .inst (some 2)] := by
   decide
 
-/-- as-is (D33): `lookup_instance` on a keyless type is not refused: `None` before the first write, the all-zero
-    handle after it (contract: IllegalOperation) -/
+/-- before fixes/D33b.patch: `lookup_instance` on a keyless type was not refused (`None` before the first write, the
+    all-zero handle after it).  After: IllegalOperation -/
 theorem C28_lookup_keyless_counterexample :
-    runW wop (w0 false) [.lookup 5, .write 5, .lookup 7] = [.inst none, .ok, .inst (some 0)] ∧
-    runW specWop (w0 false) [.lookup 5, .write 5, .lookup 7] =
+    runW wopOld (w0 false) [.lookup 5, .write 5, .lookup 7] = [.inst none, .ok, .inst (some 0)] ∧
+    runW wop (w0 false) [.lookup 5, .write 5, .lookup 7] =
       [.err .illegalOperation, .ok, .err .illegalOperation] := by
   decide
 
 /-! ### non-vacuity -/
 example : (wop (w0 true) (.register 3)).2 = .inst (some 3) ∧ hasRoom (w0 true) = true := by decide
 example : (w0 true).enabled = true ∧ (w0 true).keyed = true ∧ (3 : Int) ∉ (w0 true).registered := by decide
-example : ∀ o ∈ [WOp.register 1, .write 2, .lookup 1, .dispose 1], isUnregister o = false := by decide
+/-- `C28_unregister_forgets` and `C28_lookup_tracks_history` on a concrete history -/
+example :
+    let w : Writer := { (w0 true) with maxInst := none }
+    (endW wop w [.register 1, .write 2, .unregister 1, .register 3, .unregister 3, .write 3]).registered = [2, 3] ∧
+    [WOp.register 1, .write 2, .unregister 1].foldl (track 1) false = false := by decide
 
 end DustVerif.Tree
